@@ -56,6 +56,7 @@ def cfg(tier):
         max_ops=8 if tier == "quick" else 14,
         p_binary=0.08,
         p_cfun=15,
+        p_meth=8,
     )
 
 
